@@ -1,5 +1,5 @@
 """Pool classes of Observe.tla (module level so that Instance("NodeBase") resolves and objects pickle)."""
-from traits.api import (HasTraits, Instance, List, Dict, CStr, Int, Property, cached_property, observe,
+from traits.api import (HasTraits, Instance, List, Dict, Set, CStr, Int, Property, cached_property, observe,
                         ComparisonMode)
 
 
@@ -9,6 +9,8 @@ class NodeBase(HasTraits):
     kids = List(Instance("NodeBase"), ltracked=True)
     # (Dict traits are copied by reference unless told otherwise; List / Set / Instance default to copy="deep")
     d = Dict(CStr, Instance("NodeBase"), copy="deep")
+    s = Set(Instance("NodeBase"))
+    dl = Dict(CStr, List(Instance("NodeBase")), copy="deep")      # a nested container
 
 
 RUNS = {}          # (id(object), property name) -> number of getter runs
